@@ -27,12 +27,14 @@ RULE = (
 ASSUMPTIONS = ["exact ties between an arrival and the timeout instant are excluded, as the statement says"]
 
 Q = 0.25
-VALUES = ["m1", "m2", "n1", "n2"]  # element x starts at "n0"
+VALUES = ["m1", "m2", "n1", "n2", ""]  # element x starts at "n0"; "" only matters for the expect-empty condition
 STATEVALS = ["Ok", "Busy", "Alert", "Alert"]  # vector starts Idle
 
 
 def harness_matches(cond, kind, new):
     """The harness' own reading of the three condition kinds."""
+    if cond == "expect-empty":
+        return new == ""
     if kind == "value":
         if cond == "expect":
             return new == "m1"
@@ -55,6 +57,8 @@ def wait_kwargs(cond, kind):
         kw["event_type"] = events.ValueUpdate
         if cond == "expect":
             kw["expect"] = "m1"
+        elif cond == "expect-empty":
+            kw["expect"] = ""  # an in-process (snooping) client sees '' as such: no XML in between
         elif cond == "initial":
             kw["initial"] = "n0"
         else:
@@ -77,7 +81,7 @@ def arrival_message(kind, target, vi):
 
     if kind == "value":
         name = "x" if target == 0 else "y"
-        return message.SetTextVector(device="A", name="P", state="Idle", children=(one_parts.OneText(name=name, value=VALUES[vi % 4]),))
+        return message.SetTextVector(device="A", name="P", state="Idle", children=(one_parts.OneText(name=name, value=VALUES[vi % 5]),))
     vec = "P" if target == 0 else "Q"
     return message.SetTextVector(device="A", name=vec, state=STATEVALS[vi % 4], children=())
 
@@ -236,7 +240,7 @@ def check_block(case):
     """case: {"kind","cond","arrival_times": [...], "n_points": int} - all timeout/poll/match patterns for these instants."""
     n = nt = 0
     times = case["arrival_times"]
-    patterns = list(itertools.product([(0, 0), (0, 1), (0, 2), (1, 0)], repeat=len(times)))  # (target, value index)
+    patterns = list(itertools.product([tuple(p) for p in case.get("patterns", [(0, 0), (0, 1), (0, 2), (1, 0)])], repeat=len(times)))  # (target, value index)
     timeouts = [None] + [k for k in range(1, case["n_points"] + 2)]
     polls = [None, [1, 1], [2, 3], [0, 2]]
     for pat in patterns:
@@ -263,6 +267,9 @@ SUBCHECKS = {"grid": check_block, "single": check_case, "concurrent": check_case
 def grid_blocks(tier):
     npts = 10
     maxev = 2 if tier == "quick" else 3
+    for k in range(0, 3):
+        for times in itertools.combinations_with_replacement(range(0, npts + 1, 2), k):
+            yield {"kind": "value", "cond": "expect-empty", "arrival_times": list(times), "n_points": npts, "patterns": [(0, 4), (0, 0), (1, 4)]}
     for kind in ("value", "state"):
         for cond in ("expect", "initial", "check"):
             for k in range(0, maxev + 1):
@@ -270,10 +277,10 @@ def grid_blocks(tier):
                     yield {"kind": kind, "cond": cond, "arrival_times": list(times), "n_points": npts}
 
 
-arrival_st = st.tuples(st.integers(0, 24), st.sampled_from([0, 0, 0, 1]), st.integers(0, 3)).map(list)
+arrival_st = st.tuples(st.integers(0, 24), st.sampled_from([0, 0, 0, 1]), st.integers(0, 4)).map(list)
 wait_st = st.fixed_dictionaries(
     {
-        "cond": st.sampled_from(["expect", "initial", "check"]),
+        "cond": st.sampled_from(["expect", "initial", "check", "expect-empty"]),
         "timeout": st.none() | st.integers(1, 26),
         "poll": st.none() | st.tuples(st.integers(0, 6), st.integers(1, 7)).map(list),
     }
@@ -289,7 +296,10 @@ def free_case(draw, nwaits):
         while w["timeout"] is not None and w["timeout"] in times:
             w["timeout"] += 1  # ties with an arrival are excluded by the statement
     unit = draw(st.sampled_from([0.25, 0.125, 0.5, 1.0, 0.0625]))
-    return {"kind": draw(st.sampled_from(["value", "state"])), "waits": waits, "arrivals": sorted(arrivals), "unit": unit}
+    kind = draw(st.sampled_from(["value", "state"]))
+    if any(w["cond"] == "expect-empty" for w in waits):
+        kind = "value"  # there is no empty property state
+    return {"kind": kind, "waits": waits, "arrivals": sorted(arrivals), "unit": unit}
 
 
 def run(ctx):
